@@ -603,7 +603,9 @@ fn giant_configs(thorough: bool) -> Vec<(Vec<usize>, Vec<&'static str>)> {
             (vec![2, 131_073, 4], vec!["none"]), (vec![3, 349_526], vec!["-1"]), (vec![349_526, 3], vec!["-2"]), (vec![2_097_153], vec!["-1", "none"]),
             (vec![4, 65_536, 4], vec!["1"]), (vec![3, 64, 5462], vec!["-1"]), (vec![3, 5462, 64], vec!["1"]), (vec![2, 1, 131_075, 2, 2], vec!["2", "-3"]),
             (vec![1, 1_048_577], vec!["1", "0"]), (vec![1_048_577, 1], vec!["0"]), (vec![7, 149_797], vec!["1"]), (vec![2, 2, 2, 131_073], vec!["3"]),
-            (vec![131_073, 2, 2, 2], vec!["0"]), (vec![1031, 1033], vec!["0", "1"]), (vec![600, 2, 1000], vec!["2", "0"]), (vec![2, 524_289], vec!["-1"]),
+            (vec![131_073, 2, 2, 2], vec!["0"]), (vec![2, 524_289], vec!["-1"]), (vec![2, 262_145, 4], vec!["1"]), (vec![3, 2, 174_763, 2], vec!["-2"]),
+            // about a thousand lanes (2 .. 8 s per call in the crate): two operations each
+            (vec![1031, 1033], vec!["0", "1"]), (vec![600, 2, 1000], vec!["2", "0"]),
         ]);
     }
     g
@@ -652,7 +654,8 @@ fn gen_part3(thorough: bool, rng: &mut Rng, out: &mut dyn FnMut(String)) {
     //      Quick: two operations (of different families, rotating so that all 17 occur) per configuration; thorough: every operation.
     let (mut j, mut ci) = (0usize, 0usize);
     for (s, axes) in giant_configs(thorough) { for ax in axes {
-        let picks: Vec<&str> = if thorough { let mut v = ops.clone(); if ax == "none" { v.retain(|o| !SCAN.contains(o) || *o == "cumsum"); } v } else {
+        let lanes: usize = match ax.parse::<isize>() { Ok(a) => { let k = if a < 0 { a + s.len() as isize } else { a } as usize; s.iter().product::<usize>() / s[k] } Err(_) => 1 };
+        let picks: Vec<&str> = if thorough { ci += 1; (0..if lanes > 100 { 2 } else { 6 }).map(|t| ops[(ci * 6 + t) % 17]).collect() } else {
             ci += 1;
             let other: Vec<&str> = COUNT.iter().chain(SCAN.iter()).copied().collect();
             vec![REDUCE[(ci * 3) % 10], other[(ci * 2) % 7]]
